@@ -81,7 +81,7 @@ impl<T: CoordNum> AffineTransform<T> {
 //@ret r
 //@spec
     ensures cv(r) == m_apply(mview(*self), cv(coord)),
-//@before 1 `Coord {`
+//@entry
         proof { T::ax_obeys(); T::ax_ring(); }
 //@end
 
@@ -90,7 +90,7 @@ impl<T: CoordNum> AffineTransform<T> {
 //@spec
     requires wf(*self), wf(*other),
     ensures wf(r), mview(r) == m_then(mview(*self), mview(*other)),
-//@before 1 `Self([`
+//@entry
         proof {
             T::ax_obeys(); T::ax_ring();
             // last row of both operands is [0, 0, 1]
@@ -118,7 +118,7 @@ impl<T: CoordNum> AffineTransform<T> {
         // the documented matrix about the (converted) origin, whose defining property is that the origin is a fixed point
         mview(r).a == xfact.val() && mview(r).b == 0 && mview(r).d == 0 && mview(r).e == yfact.val(),
         exists|o: Coord<T>| call_ensures(core::convert::Into::<Coord<T>>::into, (origin,), o) && #[trigger] m_apply(mview(r), cv(o)) == cv(o),
-//@before 1 `let xoff = x0 - (x0 * xfact);`
+//@entry
         proof { T::ax_obeys(); T::ax_ring(); }
 //@after 1 `let yoff = y0 - (y0 * yfact);`
         proof {
@@ -196,7 +196,7 @@ impl<U: CoordFloat> AffineTransform<U> {
         // rotation-shaped matrix [[c, -s], [s, c]] for WHATEVER (s, c) sin_cos returned, with the origin as a fixed point
         mview(r).a == mview(r).e && mview(r).b == -mview(r).d,
         exists|o: Coord<U>| call_ensures(core::convert::Into::<Coord<U>>::into, (origin,), o) && #[trigger] m_apply(mview(r), cv(o)) == cv(o),
-//@before 1 `let xoff = x0 - (x0 * cos_theta) + (y0 * sin_theta);`
+//@entry
         proof { U::ax_obeys(); U::ax_ring(); U::ax_neg(); }
 //@after 1 `let yoff = y0 - (x0 * sin_theta) - (y0 * cos_theta);`
         proof {
